@@ -135,6 +135,26 @@ Section TrackerCb.
     brk_attach (brk_detach (brk_attach b ev cb) ev cb) ev cb = b ++ [(ev, cb)].
   Proof. intros N. unfold brk_attach. now rewrite detach_last. Qed.
 
+  (* a subscriber is the PAIR (event, callback): registering or removing a pair leaves the subscribers of every other
+     event as they were -- also when the same callable is registered for several events *)
+  Lemma subscribers_attach_other b ev cb ev' : trk_event_eqb ev' ev = false ->
+    subscribers (brk_attach b ev cb) ev' = subscribers b ev'.
+  Proof. intros H. rewrite subscribers_attach, H. apply app_nil_r. Qed.
+
+  Lemma subscribers_attach_same b ev cb : subscribers (brk_attach b ev cb) ev = subscribers b ev ++ [cb].
+  Proof. rewrite subscribers_attach. destruct ev; reflexivity. Qed.
+
+  Lemma subscribers_detach_other b ev cb ev' : trk_event_eqb ev' ev = false ->
+    subscribers (brk_detach b ev cb) ev' = subscribers b ev'.
+  Proof.
+    intros H. unfold subscribers. induction b as [|[e c] r IH]; simpl; [reflexivity|].
+    destruct (trk_event_eqb ev e && (cb =? c)) eqn:E.
+    - apply andb_true_iff in E. destruct E as [E1 _].
+      assert (H0 : trk_event_eqb ev' e = false) by (destruct ev, e, ev'; simpl in *; congruence).
+      rewrite H0. reflexivity.
+    - simpl. destruct (trk_event_eqb ev' e); simpl; [f_equal|]; exact IH.
+  Qed.
+
   Lemma propagate_quiet b (tr : track) ev : brkc_propagate trk_env_quiet b tr ev = (brk_propagate b tr ev, CbReturn).
   Proof.
     induction b as [|[d c] r IH]; simpl; [reflexivity|]. destruct (trk_event_eqb ev d); [|exact IH]. now rewrite IH.
